@@ -27,18 +27,6 @@ class HTTPDownloader(Downloader):
             keepalive_expiry=5,
         )
 
-        proxy_mounts: dict[str, httpx.AsyncHTTPTransport] = {}
-        for scheme in ("http://", "https://"):
-            proxy = self._settings.proxy.for_scheme(scheme)
-            proxy_mounts[scheme] = httpx.AsyncHTTPTransport(
-                verify=self._settings.verify_ca_certificate,
-                http1=True,
-                http2=not self._settings.http2_disable,
-                limits=http_limits,
-                proxy=httpx.Proxy(proxy) if proxy else None,
-                retries=5,
-            )
-
         client_certificate = None
         if self._settings.client_certificate:
             if self._settings.client_private_key:
@@ -48,6 +36,19 @@ class HTTPDownloader(Downloader):
                 )
             else:
                 client_certificate = self._settings.client_certificate
+
+        proxy_mounts: dict[str, httpx.AsyncHTTPTransport] = {}
+        for scheme in ("http://", "https://"):
+            proxy = self._settings.proxy.for_scheme(scheme)
+            proxy_mounts[scheme] = httpx.AsyncHTTPTransport(
+                verify=self._settings.verify_ca_certificate,
+                cert=client_certificate,
+                http1=True,
+                http2=not self._settings.http2_disable,
+                limits=http_limits,
+                proxy=httpx.Proxy(proxy) if proxy else None,
+                retries=5,
+            )
 
         self._httpx = httpx.AsyncClient(
             base_url=base_url,
